@@ -61,7 +61,7 @@ func main() {
 	var self *an.SelfTest
 	selfBroken := false
 	if *tier == "thorough" && len(fails) == 0 && *replay == "" {
-		self = selfTest(pr, *repo)
+		self = selfTest(pr, c.P)
 		selfBroken = len(self.Survived) > 0
 	}
 
@@ -121,6 +121,10 @@ func analyse(pr *rules.Property, repo string, overlay map[string][]byte, tier st
 	if err != nil {
 		return nil, err
 	}
+	return analyseProg(pr, p, tier), nil
+}
+
+func analyseProg(pr *rules.Property, p *an.Prog, tier string) (c *an.Ctx) {
 	c = an.NewCtx(p, pr.ID, tier)
 	if len(p.TypeErrors) > 0 {
 		// a checker that cannot see the code must not say "holds"
@@ -130,7 +134,7 @@ func analyse(pr *rules.Property, repo string, overlay map[string][]byte, tier st
 			}
 			c.Undecided("type-check", fmt.Sprintf("error#%d", i+1), 0, "the tree does not type-check: %s", e)
 		}
-		return c, nil
+		return c
 	}
 	func() {
 		defer func() {
@@ -140,7 +144,7 @@ func analyse(pr *rules.Property, repo string, overlay map[string][]byte, tier st
 		}()
 		pr.Run(c)
 	}()
-	return c, nil
+	return c
 }
 
 func firstLines(s string, n int) string {
@@ -182,15 +186,16 @@ func doReplay(c *an.Ctx, path string) int {
 }
 
 // selfTest applies each mutant through an in-memory overlay and requires the rule to fire.
-func selfTest(pr *rules.Property, repo string) *an.SelfTest {
+func selfTest(pr *rules.Property, base *an.Prog) *an.SelfTest {
+	repo := base.Dir
 	st := &an.SelfTest{Mutants: len(pr.Mutants)}
 	type res struct {
-		name             string
-		skipped, killed  bool
-		detail           string
+		name            string
+		skipped, killed bool
+		detail          string
 	}
 	results := make([]res, len(pr.Mutants))
-	sem := make(chan struct{}, 8)
+	sem := make(chan struct{}, 12)
 	var wg sync.WaitGroup
 	for i, m := range pr.Mutants {
 		wg.Add(1)
@@ -207,9 +212,11 @@ func selfTest(pr *rules.Property, repo string) *an.SelfTest {
 				results[i] = r
 				return
 			}
-			abs, _ := filepath.Abs(file)
-			overlay := map[string][]byte{abs: []byte(strings.Replace(string(src), m.Old, m.New, 1))}
-			c, err := analyse(pr, repo, overlay, "quick")
+			mp, err := base.Mutate(m.File, []byte(strings.Replace(string(src), m.Old, m.New, 1)))
+			var c *an.Ctx
+			if err == nil {
+				c = analyseProg(pr, mp, "quick")
+			}
 			if err != nil {
 				r.skipped = true
 				r.detail = fmt.Sprintf("%s: %v", m.Name, err)
